@@ -68,6 +68,22 @@ func GenCoopPlan(rt *rapid.T, tier string) *CoopPlan {
 	if tier == "thorough" {
 		maxAt = 900
 	}
+	// conflict trio (one plan in six): three submissions spending the same output (same payer and
+	// selector, different receivers) - the shortest history in which a lock released by a loser lets a
+	// third conflicting submission through
+	if rapid.IntRange(0, 5).Draw(rt, "trio") == 5 {
+		a, b := rapid.IntRange(0, 2).Draw(rt, "trioa"), rapid.IntRange(0, 3).Draw(rt, "triob")
+		kind := rapid.SampledFrom([]string{"dotx", "kvtx"}).Draw(rt, "triokind")
+		pl.Reqs = nil
+		for i := 0; i < 3; i++ {
+			r := CoopReq{Kind: kind, A: a, B: b, C: i, Amt: rapid.IntRange(0, 20).Draw(rt, "trioamt")}
+			if kind == "kvtx" {
+				r.Prog = []KOp{{Op: "put", K: kvKeys[0], V: fmt.Sprintf("t%d", i)}}
+			}
+			pl.Reqs = append(pl.Reqs, r)
+		}
+		maxAt = 250
+	}
 	// selection duel (one plan in five, drawn after the requests so that earlier draws are unchanged):
 	// two locking selections on one address, at least one through the by-size entry, preempted early
 	if rapid.IntRange(0, 4).Draw(rt, "duel") == 4 {
